@@ -335,23 +335,50 @@ def drive(args, check_id, cfg, tier, seed, repo, tmp, t_start):
     nworkers = max(1, min(nworkers, total))
     recheck = 50 if tier == "quick" else 500
 
-    procs = []
-    for w in range(nworkers):
-        extra = dict(
-            VERIF_MODE="explore", VERIF_SEED=str(seed), VERIF_FROM=str(w), VERIF_TO=str(total),
-            VERIF_STRIDE=str(nworkers), VERIF_TIER=tier, VERIF_RECHECK=str(recheck),
-            VERIF_MAX_WALL_S=str(WALL_CAP[tier]), VERIF_KNOWN="\n".join(known_sigs),
-        )
-        procs.append(start_worker(binary, cfg, tmp, "w%d" % w, extra))
-    rcs = []
-    for p, errf in procs:
-        rcs.append(p.wait())
-        errf.close()
+    # The run indices are cut into slices; a pool of nworkers processes works
+    # them off.  One process per slice bounds the memory of a worker (the race
+    # detector's bookkeeping grows with the number of goroutines ever created)
+    # and lets the driver stop handing out work after a violation.
+    slice_len = cfg.get("slice") or (25_000 if cfg.get("race") else 1_000_000)
+    slice_len = max(1, min(slice_len, -(-total // nworkers)))
+    slices = [(a, min(a + slice_len, total)) for a in range(0, total, slice_len)]
+    deadline = time.time() + WALL_CAP[tier]
+    pending = list(enumerate(slices))
+    running = {}  # slice index -> (proc, stderr file)
+    rcs = {}
+    stop_launching = False
+    wall_capped = False
+    while pending or running:
+        while pending and len(running) < nworkers and not stop_launching:
+            if time.time() > deadline:
+                wall_capped = True
+                pending = []
+                break
+            idx, (a, b) = pending.pop(0)
+            extra = dict(
+                VERIF_MODE="explore", VERIF_SEED=str(seed), VERIF_FROM=str(a), VERIF_TO=str(b),
+                VERIF_STRIDE="1", VERIF_TIER=tier, VERIF_RECHECK=str(recheck),
+                VERIF_MAX_WALL_S=str(WALL_CAP[tier]), VERIF_KNOWN="\n".join(known_sigs),
+            )
+            running[idx] = start_worker(binary, cfg, tmp, "w%d" % idx, extra)
+        if stop_launching:
+            pending = []
+        done = [i for i, (p, _) in running.items() if p.poll() is not None]
+        for i in done:
+            p, errf = running.pop(i)
+            rcs[i] = p.returncode
+            errf.close()
+            r = read_result(tmp, "w%d" % i)
+            if r is None or r.get("violation") or r.get("harness_error"):
+                stop_launching = True
+        if not done:
+            time.sleep(0.02)
+    launched = sorted(rcs)
 
     results = []
     harness_errors = []
     violations = []  # (signature, violation dict, replay path)
-    for w in range(nworkers):
+    for w in launched:
         name = "w%d" % w
         res = read_result(tmp, name)
         if res is None:
@@ -404,7 +431,7 @@ def drive(args, check_id, cfg, tier, seed, repo, tmp, t_start):
     nontrivial = sum(r.get("nontrivial_runs", 0) for r in results)
     rechecked = sum(r.get("determinism_rechecks", 0) for r in results)
     sim_time = sum(r.get("sim_time_ns", 0) for r in results)
-    timed_out = any(r.get("timed_out") for r in results)
+    timed_out = wall_capped or any(r.get("timed_out") for r in results)
     faults, probes, known_hits = {}, {}, {}
     for r in results:
         for k, v in (r.get("stats") or {}).get("faults", {}).items():
@@ -420,7 +447,7 @@ def drive(args, check_id, cfg, tier, seed, repo, tmp, t_start):
             violations.append((v["class"] + "@" + v["site"], v, r.get("replay")))
     sigs = set()
     capped = False
-    for w in range(nworkers):
+    for w in launched:
         p = os.path.join(tmp, "w%d.sigs" % w)
         if os.path.exists(p):
             a = array.array("Q")
@@ -452,7 +479,7 @@ def drive(args, check_id, cfg, tier, seed, repo, tmp, t_start):
         determinism_rechecks=rechecked,
         workers=nworkers,
         base_seed=seed,
-        run_indices="0..%d" % (total - 1),
+        run_indices="0..%d in %d slices of %d (%d executed)" % (total - 1, len(slices), slice_len, len(launched)),
         stopped_by_wall_cap=timed_out,
         components=meta["components"],
         toolchain=go_version,
